@@ -446,7 +446,9 @@ def run_check(pid, tier, seed, replay=None):
     if not exhausted:
         print("TRUNCATED: time budget (%ds x%d) ended the generator after %d cases; later streams were not explored"
               % (getattr(mod, "TIME_BUDGET", {"quick": 60, "thorough": 600})[tier], mult, len(cases)))
-        if len(cases) < getattr(mod, "MIN_CASES", 50):
+        if len(cases) < getattr(mod, "MIN_CASES", 50) and not any(
+                c.oracle is not None and not c.oracle.startswith(CORR_PREFIXES) for c in cases):
+            # (a run that already holds a failing input keeps its verdict, e.g. an implementation that hangs)
             raise Infra("time budget exhausted after %d cases (machine overloaded?)" % len(cases))
     lines = [l for c in cases for l in c.lines]
     expect = [e for c in cases for e in c.expect]
